@@ -601,7 +601,21 @@ func c08RunTrace(c *c08Case) []Failure {
 	var lateWg sync.WaitGroup
 	var doneList []int // callers known to have returned
 	patient := func(k int) bool {
-		return c.Acts[k] != "none" && c.Acts[k] != "late" && c.Acts[k] != "ow" && c.Acts[k] != "fail" && c.Acts[k] != "noep"
+		switch c.Acts[k] {
+		case "none", "late", "ow", "fail", "noep", "cancel", "cancelD":
+			return false
+		}
+		return true
+	}
+	var cancelMu sync.Mutex
+	cancels := map[int]context.CancelFunc{}
+	cancelOf := func(k int) {
+		cancelMu.Lock()
+		f := cancels[k]
+		cancelMu.Unlock()
+		if f != nil {
+			f()
+		}
 	}
 	replied := map[int]time.Time{} // callers the server has written the genuine reply to, and when
 	started := map[int]time.Time{}
@@ -620,8 +634,27 @@ func c08RunTrace(c *c08Case) []Failure {
 				if !patient(k) {
 					to = time.Duration(c.TimeoutMs) * time.Millisecond
 				}
+				// the caller's context: a deadline; or (acts cancel / cancelD) a cancellable context without a deadline of its
+				// own / under a distant deadline, cancelled by the script while the two-way request is in flight
+				var ctx context.Context
+				var cancel context.CancelFunc
+				switch c.Acts[k] {
+				case "cancel":
+					ctx, cancel = context.WithCancel(context.Background())
+				case "cancelD":
+					parent, pc := context.WithTimeout(context.Background(), 60*time.Second)
+					defer pc()
+					ctx, cancel = context.WithCancel(parent)
+				}
+				if cancel != nil {
+					cancelMu.Lock()
+					cancels[k] = cancel
+					cancelMu.Unlock()
+				}
 				<-startCh
-				ctx, cancel := context.WithTimeout(context.Background(), to)
+				if cancel == nil {
+					ctx, cancel = context.WithTimeout(context.Background(), to)
+				}
 				defer cancel()
 				var resp requestf.ResponsePacket
 				sp, ptype := sps[k%nprox], byte(basef.TARSNORMAL)
@@ -807,7 +840,18 @@ func c08RunTrace(c *c08Case) []Failure {
 					defer lateWg.Done()
 					select {
 					case <-ended[k]:
-					case <-time.After(6 * time.Second):
+					case <-time.After(60 * time.Second):
+					}
+					send(s.conn, s.id, c08Payload(uint32(k), 7), false)
+				}(k, s)
+			case "cancel", "cancelD": // the caller gives up while its request is in flight; the reply comes after it has left
+				cancelOf(k)
+				lateWg.Add(1)
+				go func(k int, s seen) {
+					defer lateWg.Done()
+					select {
+					case <-ended[k]:
+					case <-time.After(60 * time.Second):
 					}
 					send(s.conn, s.id, c08Payload(uint32(k), 7), false)
 				}(k, s)
@@ -864,6 +908,11 @@ func c08RunTrace(c *c08Case) []Failure {
 					send(s.conn, reqs[j].id, c08Payload(c08Poison, uint32(k)), false)
 				}
 				genuine()
+			}
+		}
+		for k := lo; k < hi; k++ { // (also those whose request never arrived)
+			if c.Acts[k] == "cancel" || c.Acts[k] == "cancelD" {
+				cancelOf(k)
 			}
 		}
 		wg.Wait() // the next round starts while this round's late replies are still to come
@@ -1410,7 +1459,7 @@ func c08Gen(tier string, rng *rand.Rand) []c08Case {
 			sizes = append(sizes, 1, 4, 4, 32, 32, 256, 8, 64, 128, 2, 16)
 		}
 	}
-	kinds := []string{"reply", "dup", "none", "late", "f0", "funk", "oneway", "fdone", "fcross", "ow", "ow", "fail", "noep"}
+	kinds := []string{"reply", "dup", "none", "late", "f0", "funk", "oneway", "fdone", "fcross", "ow", "ow", "fail", "noep", "cancel", "cancelD"}
 	for si, n := range sizes {
 		c := c08Case{Kind: "trace", N: n, TimeoutMs: 150 + rng.Intn(200)}
 		// rounds on the same proxy and connection: replies to one round's calls (late, duplicated) arrive during the next
@@ -1520,7 +1569,7 @@ func c08Gen(tier string, rng *rand.Rand) []c08Case {
 			c.Procs = []int{0, 2, 4, 1}[i%4]
 		}
 		used := map[string]bool{}
-		rk := []string{"reply", "reply", "dup", "none", "noep", "late", "reply", "ow", "noep"}
+		rk := []string{"reply", "reply", "dup", "none", "noep", "late", "reply", "ow", "noep", "cancel", "cancelD"}
 		for k := 0; k < n*c.Rounds; k++ {
 			a := rk[rng.Intn(len(rk))]
 			c.Acts = append(c.Acts, a)
@@ -1548,7 +1597,7 @@ func c08Gen(tier string, rng *rand.Rand) []c08Case {
 	if tier == "thorough" {
 		nf = 4
 	}
-	fkinds := []string{"reply", "none", "fail", "late", "ow", "dup", "reply", "none", "fail", "f0", "oneway", "noep"}
+	fkinds := []string{"reply", "none", "fail", "late", "ow", "dup", "reply", "none", "fail", "f0", "oneway", "noep", "cancel", "cancelD"}
 	for i := 0; i < nf; i++ {
 		for _, mode := range []string{"prepost", "cf", "mw"} {
 			n := []int{4, 8, 16, 32}[rng.Intn(4)]
@@ -1557,7 +1606,7 @@ func c08Gen(tier string, rng *rand.Rand) []c08Case {
 			for k := 0; k < n*c.Rounds; k++ {
 				a := fkinds[rng.Intn(len(fkinds))]
 				if k < 3 {
-					a = []string{"none", "fail", "reply"}[k]
+					a = []string{"none", "fail", "cancel"}[k]
 				}
 				c.Acts = append(c.Acts, a)
 				used[a] = true
@@ -1599,7 +1648,7 @@ func init() {
 			ID: "C08", Require: "From TarsV Require Import Base.Hex Rpc.ReqId Conc.Pending Conc.C08Corr.", CaseType: "c08_case",
 			Mismatch: "failing_from c08_check",
 			Corr:     "C08Corr.c08_check (gen_seq = real genRequestID from a set counter; concurrent batches within the theorems' conclusions; maccepts = the recorded trace, per connection, is a good run of the product of pending-table machines with the observed outcomes, table snapshots and empty tables at the end; wrap witness = the theorem's prediction)",
-			Rule:     "genRequestID: counter set to 0/maxInt32/minInt32 +-4, 2^30, random, then 1-7 calls single-threaded (exact vs gen_seq); 2-32 threads x 4-33 calls straddling 0, maxInt32, minInt32 (non-zero, distinct, reachable window, in Coq); 4-32 threads x 20000-40000 calls (monitor: non-zero, distinct, no lost increment). Scripted raw TCP server: N in {1,2,4,8,16,32,64,128,256} concurrent callers spread over 1-2 ServantProxy objects (own adapter and connection each), 1-3 rounds on the same connections, per caller one of reply / three replies / no reply / reply after the caller left / forged id 0 / forged unknown ids / one-way typed packet with the right id / id of a completed call / right id on another connection / one-way call (echoed by the peer under its id) / call failing in doInvoke (refused endpoint); answered callers call again at once (follow-up); dup-chain scenarios (3x8 replies per call); client-filter scenarios in child processes (pass-through pre+post filters, client filter, middleware); ids of all requests received by the server non-zero and distinct; server handling order a random permutation per round; request ids positioned to cross 0, the wrap threshold, or be negative; GOMAXPROCS 1,2,4,16 in thorough; table snapshot while the round is outstanding. Thorough: full-cycle wrap witness (2^31 allocations). class = (kind, counter zone, threads | N, rounds, proxies, GOMAXPROCS, id zone, set of acts)",
+			Rule:     "genRequestID: counter set to 0/maxInt32/minInt32 +-4, 2^30, random, then 1-7 calls single-threaded (exact vs gen_seq); 2-32 threads x 4-33 calls straddling 0, maxInt32, minInt32 (non-zero, distinct, reachable window, in Coq); 4-32 threads x 20000-40000 calls (monitor: non-zero, distinct, no lost increment). Scripted raw TCP server: N in {1,2,4,8,16,32,64,128,256} concurrent callers spread over 1-2 ServantProxy objects (own adapter and connection each), 1-3 rounds on the same connections, per caller one of reply / three replies / no reply / reply after the caller left / caller's context cancelled (plain, or under a distant deadline) while the request is in flight / forged id 0 / forged unknown ids / one-way typed packet with the right id / id of a completed call / right id on another connection / one-way call (echoed by the peer under its id) / call failing in doInvoke (refused endpoint); answered callers call again at once (follow-up); dup-chain scenarios (3x8 replies per call); client-filter scenarios in child processes (pass-through pre+post filters, client filter, middleware); ids of all requests received by the server non-zero and distinct; server handling order a random permutation per round; request ids positioned to cross 0, the wrap threshold, or be negative; GOMAXPROCS 1,2,4,16 in thorough; table snapshot while the round is outstanding. Thorough: full-cycle wrap witness (2^31 allocations). class = (kind, counter zone, threads | N, rounds, proxies, GOMAXPROCS, id zone, set of acts)",
 			Shard:    4,
 			Workers:  1,
 			Gen:      c08Gen,
